@@ -314,8 +314,9 @@ def strat_martingale(draw, tier):
     if not include_bs:
         spec["route"] = draw(st.sampled_from(["direct", "direct", "updated"]))
     return {"model": spec, "T": draw(_f(0.1, 3.0)),
-            "grid": {"type": draw(st.sampled_from(["uniform", "geometric"])), "h_rel": draw(_f(0.1, 1.0)),
-                     "p": 0.99999, "k": draw(st.integers(6, 12)), "refine": draw(st.integers(0, 1)), "dimension": 1}}
+            "grid": {"type": draw(st.sampled_from(["uniform", "geometric", "probstep"])), "h_rel": draw(_f(0.1, 1.0)),
+                     "p": 0.99999, "k": draw(st.integers(6, 12)), "refine": draw(st.integers(0, 1)), "dimension": 1,
+                     "p_step": draw(_f(0.02, 0.1))}}
 
 
 def body_martingale(case):
